@@ -155,6 +155,18 @@ def run_part(prop, seed, budget):
             got = (r[0], sorted(e["loc"] for e in r[1]) if r[0] == "invalid" else None)
             if r[0] == "crash": _fail(failures, "validator-with-init-variables", "crash:" + r[1].split(":")[0], datum=d, got=r[1])
             elif prop == "C10" and got != (want[0], sorted(want[1]) if want[1] else None): _fail(failures, "validator-with-init-variables", "validator-not-gated-by-its-init-variables", datum=d, got=list(got), expected=list(want))
+    if prop in ("C13", "C09"):
+        # a subclass of a discriminated class defined after the first use is an alternative like the others, in every view
+        lsrc = ["from dataclasses import dataclass", "from apischema import discriminator", "", "@discriminator('type')", "@dataclass", f"class LB{i}:", "    base: int = 0", "",
+                "@dataclass", f"class LA{i}(LB{i}):", "    a: int = 1", "", "@dataclass", f"class LA2{i}(LB{i}):", "    a2: int = 2", ""]
+        lg = vars(build_module(lsrc, f"corners7late_{seed}")); LB = lg[f"LB{i}"]
+        first = (_out(lambda: deserialize(LB, {"type": f"LA{i}"})), _out(lambda: serialize(LB, lg[f"LA2{i}"]())), _out(lambda: sorted(deserialization_schema(LB)["$defs"])))
+        exec(f"@dataclass\nclass LC{i}(LB{i}):\n    c: int = 3\n", lg)
+        LC = lg[f"LC{i}"]
+        n += 1; distinct.add(case_hash("c7-late-subclass")); hist["subclass-defined-after-first-use"] += 1
+        got = (_out(lambda: deserialize(LB, {"type": f"LC{i}", "c": 5})), _out(lambda: serialize(LB, LC(c=4))), _out(lambda: f"LC{i}" in deserialization_schema(LB)["$defs"]))
+        want = (("ok", LC(c=5)), ("ok", {"base": 0, "c": 4, "type": f"LC{i}"}), ("ok", True))
+        if got != want: _fail(failures, "late-subclass", "subclass-defined-after-first-use-not-seen", first_use=first, got=got, expected=want)
     if prop == "C12":
         # PEP 604 spellings: a dynamic conversion reaches through `X | None` / `X | int` as it does through Optional / Union
         C = ns[f"Celsius{i}"]; f = ns[f"from_int{i}"]; t = ns[f"to_int{i}"]
